@@ -100,6 +100,14 @@ pub fn step(g: &Gen, st: &mut GS) -> f64 {
         5 => a + (b - a) * (((st.k % 97) as f64) / 97.0),
         // 6: flat level
         6 => a,
+        // 7: outlier spikes followed by an almost-flat (not constant) level
+        7 => {
+            if (st.s >> 3) % 64 == 0 {
+                b
+            } else {
+                a * (1.0 + u * 0.000000014901161193847656)
+            }
+        }
         _ => a + (b - a) * u,
     };
     st.x = x;
